@@ -1,6 +1,7 @@
 package sim
 
 import (
+	"io"
 	"context"
 	"encoding/json"
 	"errors"
@@ -15,6 +16,30 @@ import (
 )
 
 var errInjected = errors.New("sim: injected fault")
+
+// injectedErr: the error value an injected fault returns. Applications return all sorts of errors, including the
+// library's own sentinel ErrNotFound, io.EOF or a cancelled context; the value is a function of the site.
+func injectedErr(f *FaultSpec) error {
+	if f == nil {
+		return errInjected
+	}
+	h := 0
+	for _, c := range f.Site + f.Arg {
+		h = h*31 + int(c)
+	}
+	if h < 0 {
+		h = -h
+	}
+	switch h % 6 {
+	case 0:
+		return pub.ErrNotFound
+	case 1:
+		return io.EOF
+	case 2:
+		return context.Canceled
+	}
+	return errInjected
+}
 var errMissing = errors.New("sim: no such entry")
 
 // ActorDir describes one local actor.
